@@ -1347,3 +1347,42 @@ fn u16_to_u8(i: u16) -> Option<u8> {
         Some(i.try_into().unwrap())
     }
 }
+
+#[cfg(vt100_verif)]
+impl Screen {
+    /// Canonical text form of the complete internal state (verification
+    /// hook; only compiled with `--cfg vt100_verif`).
+    #[must_use]
+    pub fn verif_dump(&self) -> String {
+        use std::fmt::Write as _;
+        let mut out = String::from("scr ");
+        for m in [
+            MODE_APPLICATION_KEYPAD,
+            MODE_APPLICATION_CURSOR,
+            MODE_HIDE_CURSOR,
+            MODE_ALTERNATE_SCREEN,
+            MODE_BRACKETED_PASTE,
+        ] {
+            out.push(if self.mode(m) { '1' } else { '0' });
+        }
+        let mm = match self.mouse_protocol_mode {
+            MouseProtocolMode::None => 0,
+            MouseProtocolMode::Press => 1,
+            MouseProtocolMode::PressRelease => 2,
+            MouseProtocolMode::ButtonMotion => 3,
+            MouseProtocolMode::AnyMotion => 4,
+        };
+        let me = match self.mouse_protocol_encoding {
+            MouseProtocolEncoding::Default => 0,
+            MouseProtocolEncoding::Utf8 => 1,
+            MouseProtocolEncoding::Sgr => 2,
+        };
+        let _ = write!(out, " {mm} {me} ");
+        self.attrs.verif_dump(&mut out);
+        out.push(' ');
+        self.saved_attrs.verif_dump(&mut out);
+        self.grid.verif_dump(&mut out);
+        self.alternate_grid.verif_dump(&mut out);
+        out
+    }
+}
